@@ -1,0 +1,63 @@
+//go:build verif
+
+package txpool
+
+import (
+	"github.com/oasisprotocol/oasis-core/go/common/crypto/hash"
+)
+
+// VerifScheduler is a verification-only wrapper that exposes the package-private
+// main queue scheduler to external harnesses.
+type VerifScheduler struct {
+	s *mainQueueScheduler
+}
+
+// VerifNewScheduler creates a new main queue scheduler with the given capacity.
+func VerifNewScheduler(capacity int) *VerifScheduler {
+	return &VerifScheduler{s: newMainQueueScheduler(capacity)}
+}
+
+// VerifNewMeta creates transaction metadata for the given raw transaction.
+func VerifNewMeta(raw []byte) *TxQueueMeta {
+	return &TxQueueMeta{raw: raw, hash: hash.NewFromBytes(raw)}
+}
+
+// Add adds a transaction to the scheduler.
+func (v *VerifScheduler) Add(meta *TxQueueMeta, sender string, seq, priority, stateSeq uint64) error {
+	return v.s.add(newMainQueueTransaction(meta, sender, seq, priority), stateSeq)
+}
+
+// Schedule returns the next batch of the ongoing schedule.
+func (v *VerifScheduler) Schedule(limit int) []*TxQueueMeta {
+	return v.s.schedule(limit)
+}
+
+// Reset resets the ongoing schedule.
+func (v *VerifScheduler) Reset() {
+	v.s.reset()
+}
+
+// HandleTxUsed removes the given transaction and forwards its sender.
+func (v *VerifScheduler) HandleTxUsed(h hash.Hash) {
+	v.s.handleTxUsed(h)
+}
+
+// Forward forwards the sender's queue to the given sequence number.
+func (v *VerifScheduler) Forward(sender string, seq uint64) {
+	v.s.forward(sender, seq)
+}
+
+// Clear removes all transactions.
+func (v *VerifScheduler) Clear() {
+	v.s.clear()
+}
+
+// All returns all transactions.
+func (v *VerifScheduler) All() []*TxQueueMeta {
+	return v.s.all()
+}
+
+// Size returns the number of transactions.
+func (v *VerifScheduler) Size() int {
+	return v.s.size()
+}
